@@ -3,9 +3,14 @@
 REAL_STORE = ["badger v4.2.0 on real files (tmpfs)", "internal/server store, datasets, dataset manager, namespace manager"]
 STUB_STORE = ["wall clock (testing/synctest fake clock)", "Go map iteration order (pinned by runtime overlay)", "statsd (NoOpClient)", "logger (nop)", "event bus (NoOpBus)"]
 
+SIM = "seeded deterministic simulation (synctest fake clock, scenario = explicit op/fault list)"
+
 PROPS = {
     "C01": {
         "level": "exploration",
+        "level_text": "seeded exploration of write histories against a reference model of the entity layer; every listing, scoped and merged lookup is compared after every write and after clean restarts. Sampling, not proof: the right level for a property quantified over all histories and content pairs.",
+        "level_note": "trusts badger and the Go runtime; reference model (harness/sim/model.go) encodes the property text; merged lookups compared as multisets; no null values generated",
+        "technique": SIM + "; refinement against reference model, restarts as fault",
         "profiles": [{"name": "C01", "quick": 1200, "thorough": 40000}],
         "chunk": 25, "timeout": 180,
         "rule": "scenarios are generated from seed (VERIF_SEED*1e7+index) by the C01 profile: histories of batches/transactions over 1-3 datasets and an id pool of 2-6 with swarm-varied weights for identical rewrites, equal-serialised-length adversaries, delete/un-delete flips, in-batch repeats and clean restarts; after every write the listing (one call and pages 1,2,3), every scoped lookup and every merged lookup over all dataset subsets is compared with the reference model. non-trivial = at least 2 committed writes; distinct = distinct hash of the normalised event trace (op kinds and stored/dropped counts)",
@@ -14,6 +19,9 @@ PROPS = {
     },
     "C02": {
         "level": "exploration",
+        "level_text": "seeded exploration of write histories interleaved with token-carrying readers; the feed, latest-only feed, end-token behaviour and every reader page are compared with the model's ordered version list, also across clean restarts.",
+        "level_note": "trusts badger and the Go runtime; page sizes are not constrained (only the concatenation of pages is, as the property states)",
+        "technique": SIM + "; refinement against ordered-log reference model",
         "profiles": [{"name": "C02", "quick": 1200, "thorough": 40000}],
         "chunk": 25, "timeout": 180,
         "rule": "C02 profile: write histories (in-batch repeats, identical rewrites) interleaved with 1-3 token-carrying readers (full and latest-only, limits 0,1,2,3,5), clean restarts; after every write the full feed, latest-only feed, end-token behaviour and pagings with limits 1,2,3 are compared with the model's version list; every reader page is compared with the model slice at its position. non-trivial = at least 2 committed writes; distinct = distinct normalised event trace hash",
@@ -22,10 +30,37 @@ PROPS = {
     },
     "C03": {
         "level": "exploration",
+        "level_text": "seeded exploration of reference-heavy histories; every (start, predicate|*, direction, dataset-subset) query, unpaged and paged, is compared with the graph implied by the model's latest versions.",
+        "level_note": "one open known finding (KF-C03-1, inverse scan) is stepped over for incoming queries whose referencing entity used >= 2 (predicate, dataset) combinations towards the target; all other mismatches are reported",
+        "technique": SIM + "; refinement against graph reference model",
         "profiles": [{"name": "C03", "quick": 800, "thorough": 25000}],
         "chunk": 20, "timeout": 240,
         "rule": "C03 profile: reference-heavy write histories; after writes every (start, predicate|*, direction, dataset-subset scope) query is compared with the graph implied by the model's latest versions, unpaged and paged with limits 1,2 following continuations. non-trivial = at least 2 committed writes; distinct = distinct normalised event trace hash",
         "real": REAL_STORE, "stub": STUB_STORE,
         "assumptions": ["clock advances >= 1 ns between operations"],
     },
+}
+
+# properties without a registered check yet, with the reason (kept current by hand)
+NOT_CLAIMED = {
+    "C01": "check not built yet (planned, see DESIGN.md section 9)",
+    "C02": "check not built yet (planned, see DESIGN.md section 9)",
+    "C03": "check not built yet (planned, see DESIGN.md section 9)",
+    "C04": "check not built yet (planned, see DESIGN.md section 9)",
+    "C05": "check not built yet (planned, see DESIGN.md section 9)",
+    "C06": "check not built yet (planned, see DESIGN.md section 9)",
+    "C07": "check not built yet (planned, see DESIGN.md section 9)",
+    "C08": "check not built yet (planned, see DESIGN.md section 9)",
+    "C09": "check not built yet (planned, see DESIGN.md section 9)",
+    "C10": "check not built yet (planned, see DESIGN.md section 9)",
+    "C11": "check not built yet (planned, see DESIGN.md section 9)",
+    "C12": "check not built yet (planned, see DESIGN.md section 9)",
+    "C13": "check not built yet (planned, see DESIGN.md section 9)",
+    "C14": "check not built yet (planned, see DESIGN.md section 9)",
+    "C15": "check not built yet (planned, see DESIGN.md section 9)",
+    "C16": "check not built yet (planned, see DESIGN.md section 9)",
+    "C17": "check not built yet (planned, see DESIGN.md section 9)",
+    "C18": "check not built yet (planned, see DESIGN.md section 9)",
+    "C19": "check not built yet (planned, see DESIGN.md section 9)",
+    "C20": "check not built yet (planned, see DESIGN.md section 9)",
 }
